@@ -118,8 +118,16 @@ func Deconstruct(s Square, decoder PFBDecoder) ([][]byte, error) {
 
 		blobs := make([]*share.Blob, len(wpfb.ShareIndexes))
 		for j, shareIndex := range wpfb.ShareIndexes {
-			end := int(shareIndex) + share.SparseSharesNeeded(blobSizes[j])
-			if int(shareIndex) >= len(s) || end > len(s) {
+			if int(shareIndex) >= len(s) {
+				return nil, fmt.Errorf("wrapped PFB %d: blob %d share index %d is outside of the square of %d shares", i, j, shareIndex, len(s))
+			}
+			// the signer of a version 1 blob takes up payload bytes of the blob's first share
+			blobLen := uint64(blobSizes[j]) + uint64(len(share.GetSigner(s[shareIndex])))
+			if blobLen > math.MaxUint32 {
+				return nil, fmt.Errorf("wrapped PFB %d: blob %d size %d is too large", i, j, blobSizes[j])
+			}
+			end := int(shareIndex) + share.SparseSharesNeeded(uint32(blobLen))
+			if end > len(s) {
 				return nil, fmt.Errorf("wrapped PFB %d: blob %d share range [%d, %d) is outside of the square of %d shares", i, j, shareIndex, end, len(s))
 			}
 			parsedBlobs, err := share.ParseBlobs(s[shareIndex:end])
